@@ -292,7 +292,7 @@ func checkC11(c *Ctx) {
 		"(P1 writes keyed by the range key, P2 existential search returning one constant, P4 integer accumulation, P5 collect-then-sort); " +
 		"(C11.sources) calls of time.Now/Since, math/rand, os.Getpid/Getppid, `go` and `select` statements in the core packages occur only in the listed functions; " +
 		"(C11.fmtptr) no fmt verb %p, and %v/%+v/%#v only on arguments whose static type cannot print an address; " +
-		"(C11.order) HashMap's Go map is ranged nowhere except in order-insensitive loops and every other observer uses keyOrder. " +
+		"(C11.mapiter) library helpers that walk a map in unspecified order (maps.Keys/Values/All, reflect MapKeys/MapRange) are accepted only directly under slices.Sorted*; (C11.order) HashMap's Go map is ranged nowhere except in order-insensitive loops and every other observer uses keyOrder. " +
 		"NOT decided: that two whole runs print identical text (needs the Go runtime's own determinism), pkg/server/pm_server.go (process management, see C20)."
 	R.Assumptions = []string{
 		"Go's map iteration order is the only source of order nondeterminism inside a single-goroutine evaluation",
@@ -315,6 +315,70 @@ func checkC11(c *Ctx) {
 		}
 	}
 	R.count("map_range_sites", len(sites))
+
+	// ---- C11.mapiter: library calls that walk a Go map in unspecified order (hidden range)
+	hidden := map[string]bool{"maps.Keys": true, "maps.Values": true, "maps.All": true,
+		"golang.org/x/exp/maps.Keys": true, "golang.org/x/exp/maps.Values": true,
+		"reflect.Value.MapKeys": true, "reflect.Value.MapRange": true}
+	nHidden := 0
+	scanHidden := func(un *Universe, rels []string, filter func(string) bool) {
+		for _, rel := range rels {
+			p := un.Pkgs[rel]
+			if p == nil {
+				continue
+			}
+			for _, fd := range un.allFuncDecls(rel) {
+				if filter != nil && !filter(un.Fset.Position(fd.Pos()).Filename) {
+					continue
+				}
+				idx := 0
+				var parents []ast.Node
+				ast.Inspect(fd.Body, func(n ast.Node) bool {
+					if n == nil {
+						parents = parents[:len(parents)-1]
+						return true
+					}
+					parents = append(parents, n)
+					call, ok := n.(*ast.CallExpr)
+					if !ok {
+						return true
+					}
+					f := calleeFunc(p.TypesInfo, call)
+					if f == nil || f.Pkg() == nil {
+						return true
+					}
+					id := f.Pkg().Path() + "." + f.Name()
+					if sig, ok := f.Type().(*types.Signature); ok && sig.Recv() != nil {
+						id = f.Pkg().Path() + "." + recvNamed(sig.Recv().Type()) + "." + f.Name()
+					}
+					if !hidden[id] {
+						return true
+					}
+					idx++
+					nHidden++
+					key := fmt.Sprintf("%s.%s:%s#%d", rel, declName(fd), id, idx)
+					// accepted only as the direct argument of slices.Sorted / slices.SortedFunc
+					sorted := false
+					if len(parents) >= 2 {
+						if pc, ok := parents[len(parents)-2].(*ast.CallExpr); ok {
+							if pf := calleeFunc(p.TypesInfo, pc); pf != nil && pf.Pkg() != nil && pf.Pkg().Path() == "slices" && strings.HasPrefix(pf.Name(), "Sorted") {
+								sorted = true
+							}
+						}
+					}
+					if sorted {
+						R.hold("C11.mapiter", key, un.pos(call.Pos()), "map iteration result is sorted immediately")
+					} else {
+						R.viol("C11.mapiter", key, un.pos(call.Pos()), id+" walks a Go map in unspecified order and the result is used unsorted")
+					}
+					return true
+				})
+			}
+		}
+	}
+	scanHidden(u, corePkgs, nil)
+	scanHidden(su, []string{"pkg/server"}, srvFilter)
+	R.count("hidden_map_iterations", nHidden)
 
 	// ---- C11.order: every range over HashMap.value / HashMap.GetValue() is one of the sites above
 	// and is order-insensitive; and the ordered observers read keyOrder.
